@@ -276,3 +276,51 @@ func c03LoaderWrites(r *core.Report) {
 		}
 	})
 }
+
+// c01Builders: a builder named after a bound sets that bound.
+func c01Builders(r *core.Report) {
+	p := r.Prog
+	info := p.Pkg("openapi3").TypesInfo
+	r.RunRule("C01.builders", "siblings agree on what their name says: every method of Schema named WithMin… assigns only fields of its receiver whose name contains Min, and every WithMax… only fields whose name contains Max (Min/Max, ExclusiveMin/ExclusiveMax, MinLength/MaxLength, MinItems/MaxItems, MinProps/MaxProps) — WithMaxLengthDecodedBase64 was a copy of its Min sibling that still assigned MinLength, so the schema it built had a lower bound where an upper bound was asked for", 10, func() {
+		for _, d := range p.AllDecls("openapi3") {
+			if d.Body == nil || d.Recv == nil {
+				continue
+			}
+			name := d.Name.Name
+			want := ""
+			switch {
+			case strings.HasPrefix(name, "WithMin"), strings.HasPrefix(name, "WithExclusiveMin"):
+				want = "Min"
+			case strings.HasPrefix(name, "WithMax"), strings.HasPrefix(name, "WithExclusiveMax"):
+				want = "Max"
+			default:
+				continue
+			}
+			recv := recvObj(info, d)
+			if nt := core.NamedOf(recv.Type()); nt == nil || nt.Obj().Name() != "Schema" {
+				continue
+			}
+			bad := ""
+			ast.Inspect(d.Body, func(nd ast.Node) bool {
+				as, ok := nd.(*ast.AssignStmt)
+				if !ok {
+					return true
+				}
+				for _, l := range as.Lhs {
+					sel, ok := ast.Unparen(l).(*ast.SelectorExpr)
+					if !ok || core.FieldSel(info, sel) == nil {
+						continue
+					}
+					if id := core.RootIdent(sel.X); id == nil || info.ObjectOf(id) != recv {
+						continue
+					}
+					if !strings.Contains(sel.Sel.Name, want) && bad == "" {
+						bad = sel.Sel.Name
+					}
+				}
+				return true
+			})
+			r.Check(bad == "", "builders:Schema."+name, p.Pos(d.Pos()), "assigns the bound its name says", "Schema."+name+" assigns "+bad+": the schema built has another bound than the one asked for")
+		}
+	})
+}
